@@ -27,6 +27,7 @@ FILES = ['lib/Cases.v', 'C19_Model.v', 'C19_Proofs.v', 'C19_Properties.v']
 SIG_DP = 'ProfileBase.normalize/unnormalize:data_profile-first-read-order'
 SIG_NF = 'ProfileBase.normalize:non-finite-normalization'
 SIG_EE = 'CurveOfGrowth.calc_radius_at_ee:monotone-prefix-last-point'
+SIG_UNIT = 'ProfileBase.normalize/unnormalize:unit-or-type-not-restored'
 SIG_EEC = 'CurveOfGrowth.calc_ee_at_radius:not-the-current-profile'
 SIG_EEH = 'CurveOfGrowth.encircled-energy:depends-on-history'
 
@@ -129,9 +130,11 @@ def gen_spec(rng, lattice=True, small=False, kind=None):
         data = data * factor
         if error is not None:
             error = error * factor
+    # a share of the objects is built from Quantity data/error ('' = dimensionless Quantity)
+    unit = rng.choice([None, None, None, 'Jy', 'electron / s', 'adu', '']) 
     return dict(kind=kind, data=data, error=error, mask=mask, xycen=(xc, yc), radii=radii, method=method,
                 subpixels=subpixels, dkind=dk, where=(wx, wy), mkind=mk, nonfinite=nonfinite, lattice=lattice,
-                scale=scale, factor=factor)
+                scale=scale, factor=factor, unit=unit)
 
 
 def describe(spec, ops=None):
@@ -143,7 +146,8 @@ def describe(spec, ops=None):
     d = dict(kind=spec['kind'], data=arr(spec['data']), error=arr(spec['error']),
              mask=None if spec['mask'] is None else spec['mask'].astype(int).tolist(),
              xycen=[float(spec['xycen'][0]), float(spec['xycen'][1])], radii=[float(r) for r in spec['radii']],
-             method=spec['method'], subpixels=int(spec['subpixels']), unit_factor=spec.get('factor', 1.0))
+             method=spec['method'], subpixels=int(spec['subpixels']), unit_factor=spec.get('factor', 1.0),
+             unit=spec.get('unit'))
     if ops is not None:
         d['ops'] = list(ops)
     return d
@@ -157,7 +161,7 @@ def undescribe(d):
                           for v in row] for row in a], float)
     return dict(kind=d['kind'], data=arr(d['data']), error=arr(d['error']),
                 mask=None if d['mask'] is None else np.array(d['mask'], bool), xycen=tuple(d['xycen']),
-                radii=list(d['radii']), method=d['method'], subpixels=d['subpixels'])
+                radii=list(d['radii']), method=d['method'], subpixels=d['subpixels'], unit=d.get('unit'))
 
 
 # ----------------------------------------------------------------------------------------
@@ -166,10 +170,16 @@ def undescribe(d):
 def make(spec):
     from photutils.profiles import CurveOfGrowth, RadialProfile
     cls = RadialProfile if spec['kind'] == 'radial' else CurveOfGrowth
+    data, error = spec['data'].copy(), None if spec['error'] is None else spec['error'].copy()
+    if spec.get('unit') is not None:
+        import astropy.units as u
+        unit = u.Unit(spec['unit'])
+        data = data << unit
+        error = None if error is None else error << unit
     with warnings.catch_warnings():
         warnings.simplefilter('ignore')
-        return cls(spec['data'].copy(), spec['xycen'], list(spec['radii']),
-                   error=None if spec['error'] is None else spec['error'].copy(),
+        return cls(data, spec['xycen'], list(spec['radii']),
+                   error=error,
                    mask=None if spec['mask'] is None else spec['mask'].copy(),
                    method=spec['method'], subpixels=spec['subpixels'])
 
@@ -187,15 +197,29 @@ def fa(x):
     return np.array(x, float).copy()
 
 
+def tag(x):
+    """Type and unit of an observable: ('Q', unit string) for a Quantity, ('A', None) for ndarray/float."""
+    unit = getattr(x, 'unit', None)
+    return ('A', None) if unit is None else ('Q', unit.to_string())
+
+
+def fv(x):
+    return float(getattr(x, 'value', x))
+
+
 def raw_arrays(spec):
     """What a fresh object returns (no normalisation)."""
     with warnings.catch_warnings():
         warnings.simplefilter('ignore')
         o = make(spec)
         out = dict(radius=fa(o.radius), area=fa(o.area), profile=fa(o.profile), profile_error=fa(o.profile_error))
+        # the objects themselves (Quantity or ndarray): units and types are part of what must be restored
+        out['obj'] = dict(profile=o.profile, profile_error=o.profile_error, radius=o.radius, area=o.area)
         if spec['kind'] == 'radial':
             try:
-                out['data_profile'] = fa(make(spec).data_profile)
+                dp = make(spec).data_profile
+                out['data_profile'] = fa(dp)
+                out['obj']['data_profile'] = dp
             except ValueError:
                 out['data_profile'] = 'raises'
         else:
@@ -209,27 +233,34 @@ def run_history(spec, ops):
         warnings.simplefilter('ignore')
         o = make(spec)
         trace = []
+        tags = []
         for op in ops:
             got = None
+            atag = None
             if op == 'nmax':
                 o.normalize('max')
             elif op == 'nsum':
                 o.normalize('sum')
             elif op == 'un':
                 o.unnormalize()
-            elif op == 'rp':
-                got = fa(o.profile)
-            elif op == 're':
-                got = fa(o.profile_error)
-            elif op == 'rd':
-                got = fa(o.data_profile)
+            elif op in ('rp', 're', 'rd'):
+                x = getattr(o, {'rp': 'profile', 're': 'profile_error', 'rd': 'data_profile'}[op])
+                got = fa(x)
+                atag = tag(x)
             elif op == 'ee':
                 got = ee_read(o)
             elif op == 'ri':
                 got = ri_read(o)
-            trace.append((float(o.normalization_value), got))
-        final = dict(nv=float(o.normalization_value), profile=fa(o.profile), profile_error=fa(o.profile_error),
-                     data_profile=fa(o.data_profile) if spec['kind'] == 'radial' else None)
+            trace.append((fv(o.normalization_value), got))
+            tags.append((atag, tag(o.normalization_value)))
+        dp = o.data_profile if spec['kind'] == 'radial' else None
+        final = dict(nv=fv(o.normalization_value), profile=fa(o.profile), profile_error=fa(o.profile_error),
+                     data_profile=None if dp is None else fa(dp))
+        # per op: (tag of the array read or None, tag of normalization_value); and of the final reads
+        final['tags'] = tags
+        final['ftags'] = dict(nv=tag(o.normalization_value), profile=tag(o.profile), profile_error=tag(o.profile_error),
+                              radius=tag(o.radius), area=tag(o.area),
+                              data_profile=None if dp is None else tag(dp))
     return o, trace, final
 
 
@@ -259,8 +290,13 @@ def ri_read(o):
 
 def fresh_normalised(spec, ops):
     """A fresh object brought to the same normalisation: only the normalize/unnormalize calls of `ops`."""
-    o, _, _ = run_history(spec, [op for op in ops if op in ('nmax', 'nsum', 'un')])
-    return o
+    key = tuple(op for op in ops if op in ('nmax', 'nsum', 'un'))
+    memo = spec.setdefault('_fresh', {})
+    if key not in memo:
+        if len(memo) > 400:
+            memo.clear()
+        memo[key] = run_history(spec, list(key))[0]
+    return memo[key]
 
 
 def aper_weights(spec):
@@ -392,6 +428,15 @@ def photometric_oracles(ctx, spec, raw, W):
                         bad.append(('RadialProfile.profile_error:quadrature', f'bin {i}: (profile_error*area)^2={float(got)} '
                                     f'but sum of annulus weights * err^2 = {float(ex)}'))
         prof, area = raw['profile'], raw['area']
+    # the unit of Quantity data is carried by the fresh profile and its error (as aperture photometry does)
+    if 'obj' in raw:
+        want = ('A', None)
+        if spec.get('unit') is not None:
+            import astropy.units as u
+            want = ('Q', u.Unit(spec['unit']).to_string())
+        for name in ('profile', 'profile_error'):
+            if tag(raw['obj'][name]) != want:
+                bad.append((f'{spec["kind"]}.{name}:unit', f'fresh {name} is {tag(raw["obj"][name])}, data unit implies {want}'))
     # constant image: every bin with positive area equals the constant
     vals = data[~tm]
     if vals.size and np.all(vals == vals[0]):
@@ -436,6 +481,65 @@ def spec_nv(raw_profile, ops):
             elif op == 'un':
                 nv = 1.0
     return nv
+
+
+def nv_tags(unit_tag, profile_vals, ops):
+    """Tag of the normalization_value the property implies after each op: a normalisation by the max/sum
+    of a profile with unit U has unit U the first time (then the profile is dimensionless)."""
+    out, nv, t = [], 1.0, ('A', None)
+    with np.errstate(all='ignore'), warnings.catch_warnings():
+        warnings.simplefilter('ignore')
+        for op in ops:
+            if op in ('nmax', 'nsum'):
+                p = profile_vals / nv
+                n = (np.nanmax(p) if not np.all(np.isnan(p)) else np.nan) if op == 'nmax' else np.nansum(p)
+                if np.isfinite(n) and n != 0:
+                    nv *= n
+                    if unit_tag[0] == 'Q':      # float or Quantity times Quantity -> Quantity; unit U * 1 = U
+                        t = unit_tag if t[0] == 'A' or t[1] == unit_tag[1] else t
+            elif op == 'un':
+                nv, t = 1.0, ('A', None)
+            out.append(t)
+    return out
+
+
+def div_tag(a, n):
+    """Tag of (array with tag a) / (normalization_value with tag n), as astropy types it."""
+    if a[0] == 'A' and n[0] == 'A':
+        return ('A', None)
+    import astropy.units as u
+    ua = u.dimensionless_unscaled if a[0] == 'A' else u.Unit(a[1])
+    un = u.dimensionless_unscaled if n[0] == 'A' else u.Unit(n[1])
+    return ('Q', (ua / un).to_string())
+
+
+def unit_oracle(spec, raw, ops, final):
+    """Every read has the type (Quantity / ndarray) and unit of  fresh array / normalization_value  as astropy
+    computes it; in particular after unnormalize() everything is back to the fresh type and unit."""
+    obj = raw['obj']
+    ftag = {k: tag(v) for k, v in obj.items()}
+    names = {'rp': 'profile', 're': 'profile_error', 'rd': 'data_profile'}
+    nvt = nv_tags(ftag['profile'], raw['profile'], ops)
+    last = nvt[-1] if ops else ('A', None)
+    for name, got in final['ftags'].items():          # arrays after the whole history first
+        if got is None or name == 'nv' or name not in ftag:
+            continue
+        want = ftag[name] if name in ('radius', 'area') else div_tag(ftag[name], last)
+        if got != want:
+            return [(SIG_UNIT, f'after {list(ops)}: {name} is {got} but fresh {name} {ftag[name]} / normalization_value '
+                               f'{last} is {want}  (("Q", unit) = Quantity, ("A", None) = ndarray/float)')]
+    for i, op in enumerate(ops):
+        got_arr, _ = final['tags'][i]
+        if op in names and got_arr != div_tag(ftag[names[op]], nvt[i]):
+            return [(SIG_UNIT, f'after {ops[:i + 1]}: {names[op]} is {got_arr} but fresh {names[op]} {ftag[names[op]]} / '
+                               f'normalization_value {nvt[i]} is {div_tag(ftag[names[op]], nvt[i])}  '
+                               f'(("Q", unit) = Quantity, ("A", None) = ndarray/float)')]
+    for i, op in enumerate(ops):
+        if final['tags'][i][1] != nvt[i]:
+            return [(SIG_UNIT, f'after {ops[:i + 1]}: normalization_value is {final["tags"][i][1]}, expected {nvt[i]}')]
+    if final['ftags']['nv'] != last:
+        return [(SIG_UNIT, f'after {list(ops)}: normalization_value is {final["ftags"]["nv"]}, expected {last}')]
+    return []
 
 
 def history_oracle(spec, raw, ops, trace, final):
@@ -504,7 +608,7 @@ def history_oracle(spec, raw, ops, trace, final):
         if not nvbad and not ((np.isnan(nv) and np.isnan(want_nv)) or abs(nv - want_nv) <= 1e-9 * abs(want_nv)):
             nvbad.append((SIG_NF if allnan else 'ProfileBase.normalize:normalization_value',
                           f'after {ops[:i + 1]}: normalization_value = {nv}, expected {want_nv}'))
-    return bad or nvbad
+    return bad or nvbad or unit_oracle(spec, raw, ops, final)
 
 
 def mono_prefix(profile):
@@ -518,16 +622,13 @@ def mono_prefix(profile):
 def ee_classes(o):
     """calc_radius_at_ee(profile[i]) for every i: None if it raises, else class list."""
     prof, rad = fa(o.profile), fa(o.radius)
-    cls = []
     with warnings.catch_warnings():
         warnings.simplefilter('ignore')
-        for i in range(len(prof)):
-            try:
-                v = float(o.calc_radius_at_ee(prof[i]))
-            except ValueError:
-                return None
-            cls.append(0 if np.isnan(v) else (1 if abs(v - rad[i]) <= 1e-9 * rad[i] else 2))
-    return cls
+        try:
+            v = fa(o.calc_radius_at_ee(prof))
+        except ValueError:
+            return None
+    return [0 if np.isnan(x) else (1 if abs(x - r) <= 1e-9 * r else 2) for x, r in zip(v, rad)]
 
 
 def ee_oracle(o):
@@ -540,20 +641,21 @@ def ee_oracle(o):
         return []
     with warnings.catch_warnings():
         warnings.simplefilter('ignore')
-        for i in range(k):
-            try:
-                ee = float(o.calc_ee_at_radius(rad[i]))
-                # the composition is evaluated through the knot value itself: pchip may return the
-                # last knot one ulp outside the range, which extrapolate=False maps to NaN
-                back = float(o.calc_radius_at_ee(prof[i]))
-            except ValueError as e:
-                return [(SIG_EE, f'profile {prof.tolist()} is strictly increasing up to index {k - 1} but '
-                                 f'calc_radius_at_ee raises: {str(e)[:60]}')]
-            if not (abs(ee - prof[i]) <= 1e-9 * abs(prof[i]) + 1e-300):
-                return [('CurveOfGrowth.calc_ee_at_radius:knots', f'calc_ee_at_radius(radius[{i}]) = {ee} != profile[{i}] = {prof[i]}')]
-            if not (np.isfinite(back) and abs(back - rad[i]) <= 1e-9 * rad[i]):
-                return [(SIG_EE, f'profile {prof.tolist()} (monotone part = first {k} points): '
-                                 f'calc_radius_at_ee(profile[{i}]) = {back}, expected radius[{i}] = {rad[i]}')]
+        try:
+            ees = fa(o.calc_ee_at_radius(rad[:k]))
+            # the composition is evaluated through the knot values themselves: pchip may return the
+            # last knot one ulp outside the range, which extrapolate=False maps to NaN
+            backs = fa(o.calc_radius_at_ee(prof[:k]))
+        except ValueError as e:
+            return [(SIG_EE, f'profile {prof.tolist()} is strictly increasing up to index {k - 1} but '
+                             f'calc_radius_at_ee raises: {str(e)[:60]}')]
+    for i in range(k):
+        ee, back = ees[i], backs[i]
+        if not (abs(ee - prof[i]) <= 1e-9 * abs(prof[i]) + 1e-300):
+            return [('CurveOfGrowth.calc_ee_at_radius:knots', f'calc_ee_at_radius(radius[{i}]) = {ee} != profile[{i}] = {prof[i]}')]
+        if not (np.isfinite(back) and abs(back - rad[i]) <= 1e-9 * rad[i]):
+            return [(SIG_EE, f'profile {prof.tolist()} (monotone part = first {k} points): '
+                             f'calc_radius_at_ee(profile[{i}]) = {back}, expected radius[{i}] = {rad[i]}')]
     return []
 
 
@@ -632,7 +734,7 @@ class Reporter:
     def add(self, sig, what, replay, found_input=True):
         ops = replay.get('spec', {}).get('ops') or []
         roundtrip = any(o in ('nmax', 'nsum') and 'un' in ops[i + 1:] for i, o in enumerate(ops))
-        prio = (1 if 'normalization_value =' in what else 0, 0 if (roundtrip or not ops) else 1, len(ops))
+        prio = (1 if ('normalization_value =' in what or 'normalization_value is' in what) else 0, 0 if (roundtrip or not ops) else 1, len(ops))
         self.items.append((prio, len(self.items), sig, what, replay, found_input))
 
     def flush(self):
@@ -683,6 +785,7 @@ def check_object(ctx, rep, spec, raw, W, tag):
     ctx.stat(tag + ':centre', '/'.join(spec['where']))
     ctx.stat(tag + ':data', spec['dkind'] + ('+nonfinite' if spec['nonfinite'] else ''))
     ctx.stat(tag + ':mask', spec['mkind'])
+    ctx.stat(tag + ':quantity', 'ndarray' if spec.get('unit') is None else repr(spec['unit']))
     f = spec.get('factor', 1.0)
     ctx.stat(tag + ':unit', '1' if f == 1.0 else ('<1e-15' if f < 1e-15 else '<1' if f < 1 else '>1e15' if f > 1e15 else '>1'))
     ctx.stat(tag + ':error', 'yes' if spec['error'] is not None else 'no')
@@ -777,7 +880,7 @@ def _run(ctx, rep):
         if i < 2:
             ctx.sample({'case': describe(spec, ops), 'impl_profile': raw['profile'].tolist(),
                         'impl_area': raw['area'].tolist(), 'final': {k: (None if v is None else np.asarray(v).tolist())
-                                                                     for k, v in final.items()}})
+                                                                     for k, v in final.items() if k in ('nv', 'profile', 'profile_error', 'data_profile')}})
     ctx.stat('coq', 'skipped:non-dyadic-weights', skipped)
     bad = ctx.coq_eval_cases(['C19_Model'], 'check_case', coq_cases, case_type='case')
     ctx.stat('coq', 'disagreements', len(bad))
@@ -791,7 +894,7 @@ def _run(ctx, rep):
         shown += 1
         detail = {'type': 'history', 'spec': describe(spec, ops), 'impl': {'radius': raw['radius'].tolist(),
                   'area': raw['area'].tolist(), 'trace': [(nv, None if g is None else g.tolist()) for nv, g in trace],
-                  'final': {k: (None if v is None else np.asarray(v).tolist()) for k, v in final.items()}, 'ee': ee},
+                  'final': {k: (None if v is None else np.asarray(v).tolist()) for k, v in final.items() if k in ('nv', 'profile', 'profile_error', 'data_profile')}, 'ee': ee},
                   'model': ctx.coq_eval_term(['C19_Model'], f'model_out {coq_cases[i]}'),
                   'cmd': 'bin/check C19 --replay <this file>'}
         rep.add('correspondence:C19_Model.check_case', 'model and implementation disagree although no property '
@@ -799,16 +902,18 @@ def _run(ctx, rep):
 
     # ---------------- B. all interleavings on small objects (property oracles)
     maxlen = 4 if quick else 5
-    nobj = 5 if quick else 10
+    nobj = 4 if quick else 10
     done = 0
     tries = 0
     while done < nobj and tries < 200:
         tries += 1
-        kind = 'radial' if done % 5 in (0, 2, 4) else 'cog'
+        kind = 'radial' if done % 2 == 0 else 'cog'
         spec = gen_spec(rng, lattice=(done % 4 < 2), small=True, kind=kind)
-        if done % 5 == 4:
+        if done % 8 == 2:
             spec['mask'] = np.ones(spec['data'].shape, bool)      # all-NaN profile
             spec['mkind'] = 'all'
+        if done % 4 in (0, 1) and spec.get('unit') is None and done < 4:
+            spec['unit'] = 'Jy' if done == 0 else 'electron / s'   # always some Quantity objects in the exhaustive part
         raw = raw_arrays(spec)
         dp_ok, sum_ok = object_flags(spec, raw)
         if kind == 'radial' and not dp_ok:
@@ -861,6 +966,7 @@ def _run(ctx, rep):
             out[dy:dy + ny, dx:dx + nx] = a
             return out
         spec2 = dict(spec)
+        spec2.pop('_fresh', None)
         # the padded frame is masked, so exactly the original pixels contribute
         spec2['data'] = pad(spec['data'], 7.0)
         spec2['error'] = pad(spec['error'], 1.0)
@@ -905,7 +1011,7 @@ def replay(obj):
             bad += ee_oracle(o)
             print('profile:', fa(o.profile).tolist(), ' calc_radius_at_ee classes:', ee_classes(o))
         print('ops:', ops)
-        print('final:', {k: (None if v is None else np.asarray(v).tolist()) for k, v in final.items()})
+        print('final:', {k: (None if v is None else np.asarray(v).tolist()) for k, v in final.items() if k in ('nv', 'profile', 'profile_error', 'data_profile')})
     print('fresh:', {k: (v if v is None or isinstance(v, str) else v.tolist()) for k, v in raw.items()})
     for sig, what in bad:
         print('FAILS:', sig, '--', what)
